@@ -46,7 +46,7 @@ def rand_krecv(rng):
 
 
 def gen_history(rng, nops, ctx, start=None):
-    start = start or rng.choice(["ready", "ready", "ready", "connecting", "resolving"])
+    start = start or rng.choice(["ready", "ready", "ready", "ready", "connecting", "resolving", "resolving-local", "resolving-local+remote"])
     ops = ["N " + start]
     for _ in range(nops):
         r = rng.below(100)
